@@ -6,6 +6,8 @@ from vplib import coqtools, harness
 
 META = {
     "technique": "Coq proof (per-step and whole-sequence invariants of the watermark tracker and the late-data gate) + model/impl differential on PerSourceWatermarkTracker and on Engine programs with .watermark/.allowed_lateness",
+    "level_text": 'Theorems C24_* in coq/theories/Watermark/Props.v about the executable model of PerSourceWatermarkTracker and of the late-data gate of Engine::process_inner: per-source watermarks never decrease over any op sequence, the effective watermark is the minimum over the sources that have one, and for every program and history an event is dropped only if ts < wm and ts < wm - lateness for every consuming stream; model tied to watermark.rs / engine/mod.rs by comparing the full tracker state after every op and the delivered streams per event',
+    "level_note": 'Side condition: a name is registered again only while it has no watermark (register_source replaces the entry = a new source); such sequences are compared but not judged. Streams without .allowed_lateness count as lateness 0. Diversion to a side output is unreachable (side_output_stream always None), only dropping is modelled. Tracker state is read through checkpoint() in whole seconds. Trusted: Coq kernel + vm_compute, hand-written model (differential tie), harness, Python oracle',
     "design_ref": "DESIGN.md §7 C24",
 }
 
